@@ -141,17 +141,35 @@ func (c *Ctx) checkClientPairing(rel string, sm *StateMachine) {
 		c.Undecided("%s: no caller-side receive on a reply channel", rel)
 	}
 	lock, unlock := []string{"Lock"}, []string{"Unlock"}
+	// candidate busy locks: every sync.Mutex field of the Client struct (the name is not assumed)
+	var mutexes []string
+	if tn, ok := c.Pkg(rel).Types.Scope().Lookup("Client").(*types.TypeName); ok {
+		if st, ok := tn.Type().Underlying().(*types.Struct); ok {
+			for i := 0; i < st.NumFields(); i++ {
+				if typeStr(st.Field(i).Type()) == "sync.Mutex" {
+					mutexes = append(mutexes, "."+st.Field(i).Name())
+				}
+			}
+		}
+	}
+	if len(mutexes) == 0 {
+		mutexes = []string{".busyMutex"}
+	}
 	for _, s := range sites {
 		if fnIsCleanup(s.fn) {
 			continue
 		}
 		key := fmt.Sprintf("%s:%s", ssaFuncKey(s.fn), s.field)
 		// (a)
-		held := heldAt(s.fn, s.instr, ".busyMutex", lock, unlock)
-		if !held {
-			// helper: every static caller (in the package) holds the mutex at the call site, directly or because it is
-			// itself such a helper (recursively)
-			held = c.heldOnEntry(rel, s.fn, ".busyMutex", map[*ssa.Function]bool{})
+		held := false
+		mu := mutexes[0]
+		for _, m := range mutexes {
+			if heldAt(s.fn, s.instr, m, lock, unlock) || c.heldOnEntry(rel, s.fn, m, map[*ssa.Function]bool{}) {
+				// helper: every static caller (in the package) holds the mutex at the call site, directly or because it is
+				// itself such a helper (recursively)
+				held = true
+				mu = m
+			}
 		}
 		c.Check(held, "reply-under-busy-lock", key, s.instr.Pos(), "the wait for the reply happens with busyMutex held (no other request can be outstanding)", "the reply is awaited without busyMutex held: two callers can wait on "+s.field+" at once and receive each other's replies")
 		// (b)
@@ -163,7 +181,7 @@ func (c *Ctx) checkClientPairing(rel string, sm *StateMachine) {
 		}
 		domSend := false
 		for _, sd := range sends {
-			if precedes(sd.(ssa.Instruction), s.instr) && !unlockBetweenSimple(s.fn, sd.(ssa.Instruction), s.instr, ".busyMutex") {
+			if precedes(sd.(ssa.Instruction), s.instr) && !unlockBetweenSimple(s.fn, sd.(ssa.Instruction), s.instr, mu) {
 				domSend = true
 			}
 		}
